@@ -349,6 +349,46 @@ func runC19(c *fw.Ctx) {
 				c19Judge(c, fx, name, res, in)
 			})
 		}
+		// receiver states the enumerated calls do not reach: mixed numeric kinds under Sort (whatever Sort makes of them, it
+		// returns the registered value), padding written and taken away again by tree-form calls, nil elements at the end
+		{
+			mixed := listFixture(depth, 3, 1.5, 2, 0.5)
+			stepOn := func(fxm fixture, name string, f func() at.List) {
+				in := func() string { return fmt.Sprintf("%s chain step %s", fxm.name, name) }
+				guard(c, in, func() {
+					var res at.List
+					if p, _ := drive.Protect(func() { res = f() }); p {
+						return
+					}
+					c.Count("method_calls")
+					c.Distinct(in())
+					c19Judge(c, fxm, name, res, in)
+				})
+			}
+			ml := mixed.outer.(at.List)
+			stepOn(mixed, "Sort(ints and floats mixed, int first)", func() at.List { return ml.Sort() })
+			mixed2 := listFixture(depth, 2.5, 1, 0.5, 3)
+			ml2 := mixed2.outer.(at.List)
+			stepOn(mixed2, "Sort(ints and floats mixed, float first)", func() at.List { return ml2.Sort() })
+			mixed3 := listFixture(depth, "b", 1, "a")
+			ml3 := mixed3.outer.(at.List)
+			stepOn(mixed3, "Sort(strings and an int)", func() at.List { return ml3.Sort() })
+			pad := listFixture(depth, 1)
+			pl := pad.outer.(at.List)
+			stepOn(pad, "SetTF(#5) on a short list", func() at.List { return pl.SetTF("#5", "far") })
+			stepOn(pad, "UnsetTF(#5) of the element behind the padding", func() at.List { return pl.UnsetTF("#5") })
+			stepOn(pad, "UnsetTF(last) leaving nil at the end", func() at.List { return pl.Add(1, nil, 2).UnsetTF(fmt.Sprintf("#%d", pl.Count()-1)) })
+			stepOn(pad, "Delete(last) leaving nil at the end", func() at.List { return pl.Add(nil, 3).Delete(pl.Count() - 1) })
+			stepOn(pad, "Pop leaving nil at the end", func() at.List { pl.Add(nil, 4).Pop(); return pl.Reverse() })
+			po := objectFixture(depth, "k", 1)
+			pobj := po.outer.(at.Object)
+			inO := func() string { return po.name + " SetTF / UnsetTF through a padded list field" }
+			guard(c, inO, func() {
+				c19Judge(c, po, "SetTF(.l#4)", pobj.SetTF(".l#4", 1), inO)
+				c19Judge(c, po, "UnsetTF(.l#4)", pobj.UnsetTF(".l#4"), inO)
+				c19Judge(c, po, "UnsetTF(.l)", pobj.UnsetTF(".l"), inO)
+			})
+		}
 		step("Insert(at end)", func() at.List { return l.Insert(l.Count(), 1) })
 		step("Insert(at 0)", func() at.List { return l.Insert(0, 1) })
 		step("SetTF(leaf replace)", func() at.List { return l.SetTF("#0", 5) })
